@@ -167,6 +167,8 @@ def main():
             evs = [copy.deepcopy(o) for o in c["ops"] if o["op"] == "event"][-3:] or [{"op": "event", "event": {"a": 1}}]
             return [dict(e, loc="a") for e in evs] + [{"op": "listRules", "inherited": False, "loc": "a"}]
         selfcons_phase(ck, lr, fcs, run_cases(lr.drv, fcs), OBS, ck.rng, 200 if not ck.thorough else 100000)
+    # a write that the add hook refuses changes nothing: the replaced rule is dispatched as before (model-free, real code both sides)
+    refused_hook_phase(ck, lr, ck.rng, 250 if not ck.thorough else 6000)
     # unit-level tie of the pattern index itself: add/rem/search sequences on one core.PatternIndex against PI.mod / PI.search
     nu = 1500 if not ck.thorough else 40000
     ucases = []
